@@ -111,7 +111,7 @@ O2O_CASES = [
 
 def run(tier, seed):
     ctx = core.Ctx("C11", tier, seed, LEVEL)
-    r = core.tlc("MC_C11", "MC_C11_q", workers=8, timeout=600)
+    r = core.tlc("MC_C11", "MC_C11_q" if tier == "quick" else "MC_C11_t", workers=8, timeout=1200)
     if not r.ok:
         raise core.ToolError("MC_C11: header theorems violated on the specification or TLC error:\n" + r.stdout[-2000:])
     ctx.add_tlc(r)
